@@ -121,6 +121,27 @@ static void pair_case(Rng &r) {
          dexact(e21).c_str(), dexact(et).c_str(), dexact(er).c_str(), dexact(c1).c_str(), dexact(c2).c_str());
 }
 
+// segments of several sites with different ranks: the segment energy is the sum of the site-pair energies, in both orders (the pair
+// energies themselves are compared with the model by the pair cases)
+static void seg_case(Rng &r) {
+  int nA = 1 + (int)r.below(3), nB = 1 + (int)r.below(3);
+  StaticSegment A("a", 0), B("b", 1);
+  V3d cA((r.unit() - 0.5) * 4, (r.unit() - 0.5) * 4, (r.unit() - 0.5) * 4);
+  V3d dir(r.unit() - 0.5, r.unit() - 0.5, r.unit() - 0.5);
+  if (dir.norm() < 1e-3) dir = V3d(0, 0, 1);
+  dir.normalize();
+  V3d cB = cA + (4.0 + 6.0 * r.unit()) * dir;
+  std::ostringstream o;
+  o << "C15 seg " << nA << " " << nB;
+  for (int i = 0; i < nA; i++) { int rk = (int)r.below(3); o << " " << rk; A.push_back(make(r, rk, cA + V3d(r.unit() - 0.5, r.unit() - 0.5, r.unit() - 0.5), false)); }
+  for (int i = 0; i < nB; i++) { int rk = (int)r.below(3); o << " " << rk; B.push_back(make(r, rk, cB + V3d(r.unit() - 0.5, r.unit() - 0.5, r.unit() - 0.5), false)); }
+  eeInteractor ee;
+  double eAB = ee.CalcStaticEnergy(A, B), eBA = ee.CalcStaticEnergy(B, A), esum = 0, scale = 0;
+  for (const StaticSite &a : A) for (const StaticSite &b : B) { double e = ee.CalcStaticEnergy_site(a, b); esum += e; scale += std::fabs(e); }
+  o << " " << dexact(eAB) << " " << dexact(eBA) << " " << dexact(esum) << " " << dexact(scale);
+  printf("%s\n", o.str().c_str());
+}
+
 static void field_case(Rng &r) {
   int ra = (int)r.below(3), rb = (int)r.below(3);
   double R = 0.5 * std::pow(200.0, r.unit());
@@ -183,7 +204,7 @@ int main(int argc, char **argv) {
   }
   for (long i = 0; i < N; i++) {
     int k = (int)r.below(10);
-    if (k < 6) pair_case(r); else if (k < 8) field_case(r); else thole_case(r);
+    if (k < 5) pair_case(r); else if (k < 6) seg_case(r); else if (k < 8) field_case(r); else thole_case(r);
   }
   return 0;
 }
